@@ -54,7 +54,7 @@ static Verdict judge_script(const std::string &script, std::vector<std::string> 
 	std::map<std::string, Live> live;   // by UID
 	std::map<int, std::string> pid_uid;
 	size_t opi = 0; double now = T0; double last_late = 0.001;
-	bool late_multi = false, change_between = false, exit_between = false; size_t nspawn = 0;
+	bool late_multi = false, change_between = false, exit_between = false; size_t nspawn = 0, restarts = 0;
 	auto uid_of = [](const std::string &ics) { size_t p = ics.find("\nUID:"); if (p == std::string::npos) return std::string(); size_t e = ics.find('\n', p + 1); return ics.substr(p + 5, e - p - 5); };
 	for (size_t i = 0; i < tr.ev.size(); i++) {
 		const Ev &e = tr.ev[i];
@@ -105,6 +105,13 @@ static Verdict judge_script(const std::string &script, std::vector<std::string> 
 			// nothing due (by more than the lateness) may be left unrun
 			for (auto &kv : live) { Live &l = kv.second; if (l.cancelled) continue; if (l.next < l.occ.size() && l.occ[l.next] + last_late + 0.01 < e.t) return Verdict::fail("t=+" + std::to_string(e.t - T0) + ": the occurrence of " + kv.first + " at +" + std::to_string(l.occ[l.next] - T0) + " has not been run (zero runs for a due occurrence)"); }
 			break; }
+		case Ev::OTHER: {
+			if (e.raw.compare(0, 10, "RESTART t=") != 0) break;
+			double t = atof(e.raw.c_str() + 10); restarts++;
+			// every task still queued is loaded again at t: occurrences before t are not made up for; running executions are no longer the daemon's
+			for (auto &kv : live) { Live &l = kv.second; if (l.cancelled) continue; if (l.next >= l.occ.size() && !l.more) { l.cancelled = true; continue; } l.loaded = t; while (l.next < l.occ.size() && l.occ[l.next] < t) l.next++; l.running = 0; if (l.next >= l.occ.size() && !l.more) l.cancelled = true; }
+			pid_uid.clear();
+			break; }
 		case Ev::DUMP: {
 			// queued set == model: tasks with occurrences left, or with children still running
 			std::set<std::string> have; for (auto &r : e.rows) have.insert(r.uid);
@@ -118,7 +125,7 @@ static Verdict judge_script(const std::string &script, std::vector<std::string> 
 	}
 	(void)now;
 	Verdict v; v.nontrivial = nspawn >= 1 && (late_multi || change_between || exit_between);
-	if (late_multi) v.classes.push_back("late-wakeup-collapses>=2"); if (change_between) v.classes.push_back("replace/cancel-between-arm-and-fire"); if (exit_between) v.classes.push_back("exit-before-late-wakeup");
+	if (late_multi) v.classes.push_back("late-wakeup-collapses>=2"); if (change_between) v.classes.push_back("replace/cancel-between-arm-and-fire"); if (exit_between) v.classes.push_back("exit-before-late-wakeup"); if (restarts) v.classes.push_back("restart");
 	v.classes.push_back(nspawn == 0 ? "spawns/0" : nspawn < 10 ? "spawns/1-9" : "spawns/10+");
 	if (classes_out) *classes_out = v.classes;
 	return v;
@@ -138,13 +145,13 @@ void prop_gen(Ctx &c) {
 		if (c.shrink_exhausted()) return;
 		auto h = *genHist; size_t nops = 4 + (size_t)*R(0, maxops - 3);
 		std::string script = "USERS 1000 1001\n";
-		double now = T0; int nuids = 0;
+		double now = T0; int nuids = 0; bool with_restart = *R(0, 3) == 0;   // such histories avoid RDATE events: the queue file does not keep them (C05's open finding rt_rdate)
 		static const char *F[] = {"SECONDLY", "MINUTELY", "HOURLY", "DAILY"}; static const int UNIT[] = {1, 60, 3600, 86400};
 		for (size_t i = 0; i < nops && i < h.size(); i++) {
 			auto &o = h[i]; int sel = std::get<0>(o);
 			if (sel < 35) {          // add or replace
 				std::string uid = "job" + std::to_string(std::get<1>(o));
-				int shape = std::get<2>(o); int64_t start = (int64_t)now + std::get<3>(o);
+				int shape = std::get<2>(o); if (with_restart && shape >= 5 && shape < 9) shape -= 5; int64_t start = (int64_t)now + std::get<3>(o);
 				std::vector<std::string> lines;
 				if (shape < 5) { int f = shape % 4; int iv = std::get<4>(o); if (f >= 2) iv = 1 + iv % 3; int cnt = std::get<5>(o);
 					// keep the model window small: finite rules; DTSTART possibly long before now
@@ -159,6 +166,7 @@ void prop_gen(Ctx &c) {
 			else if (sel < 80) { double dt = std::get<7>(o) % 7 == 0 ? std::get<7>(o) : std::get<4>(o) * (1 + std::get<7>(o) % 9); int lc = std::get<9>(o); double late = lc == 0 ? 0.001 : lc == 1 ? 0.4 : lc == 2 ? 1.0 : lc == 3 ? 7.5 : 130.0; now += dt; char b[96]; snprintf(b, sizeof b, "ADV %.3f %.3f\n", now, late); script += b; now += late; }
 			else if (sel < 86) script += "EXITALL\n";
 			else if (sel < 94) script += "EXITN " + std::to_string(std::get<7>(o)) + "\n";
+			else if (sel < 97 && with_restart) script += "RESTART\n";
 			else script += "DUMP\n";
 		}
 		{ char b[96]; now += 40; snprintf(b, sizeof b, "ADV %.3f 0.001\nEXITALL\nDUMP\n", now); script += b; }
